@@ -1110,10 +1110,13 @@ Section Conv.
     end.
   Definition sort_nodes (l : list bundle) : list bundle := fold_left (fun acc b => insert_sorted b acc) l [].
 
+  (* the order in which the item nodes are handed to the list stylist *)
+  Definition import_items_order (nodes : list bundle) : list bundle :=
+    if reorder_import_items cfg && forallb (fun b => negb (contains_comment (bt b))) nodes && no_dup_names nodes []
+    then sort_nodes nodes else nodes.
+
   Definition convert_import_items (c : ctx) (nodes : list bundle) : M doc :=
-    let nodes' :=
-      if reorder_import_items cfg && forallb (fun b => negb (contains_comment (bt b))) nodes && no_dup_names nodes []
-      then sort_nodes nodes else nodes in
+    let nodes' := import_items_order nodes in
     l <- lst_process lst_new c nodes' (fun c child =>
            match bk child with
            | KRenamedImportItem => d <- call child (RImportItemRenamed c) ;; ret (Some d)
